@@ -48,6 +48,7 @@ KF_COOKIE = "C15:as_curl_command:cookie-jar-becomes-Cookie-header-after-sanitiza
 KF_AUTH = "C15:as_curl_command:auth-becomes-Authorization-header-after-sanitization"
 KF_CONSOLE = "C15:console:schema-location-and-base-url-printed-with-userinfo"
 KF_HAR_CRASH = "C15:har_writer:sanitized-userinfo-url-kills-the-writer"
+KF_MUTATES = "C15:prepare_request:sanitization-redacts-the-case-itself"
 
 NONSTR = "¤"  # prefix of the wire form of a non-string leaf
 
@@ -115,6 +116,17 @@ def val_names_ok(v) -> bool:
     if isinstance(v, list):
         return all(val_names_ok(x) for x in v)
     return True
+
+
+def val_unwire(w):
+    import ast
+    if isinstance(w, dict):
+        return {k: val_unwire(x) for k, x in w["D"]}
+    if isinstance(w, list):
+        return [val_unwire(x) for x in w]
+    if w.startswith(NONSTR):
+        return ast.literal_eval(w[len(NONSTR):])
+    return w
 
 
 def url_wire(url: str) -> dict:
@@ -190,7 +202,8 @@ def statement_check(chk, can, channel: str, text: str, replay: dict):
     for tok, route, name in can.statement_leaks(text):
         chk.violation(f"C15:default-configuration:{name.lower()}-is-not-protected",
                       f"under the default configuration the value of `{name}` ({route}) is visible in {channel}: the name is no longer "
-                      "covered by DEFAULT_KEYS_TO_SANITIZE / DEFAULT_SENSITIVE_MARKERS", {**replay, "secret": tok, "name": name})
+                      "covered by DEFAULT_KEYS_TO_SANITIZE / DEFAULT_SENSITIVE_MARKERS",
+                      {**replay, "secret": tok, "name": name, "default_configuration": True})
 
 
 def random_case(rng, s: str) -> str:
@@ -468,6 +481,28 @@ def mech_config(chk, rng):
         chk.feature(f"config:{a['how']}")
         if got != model:
             chk.disagreement("config", a, model, got)
+        # ---- replay: the resulting predicate is exactly the configured one (judged on the real sanitizer)
+        base = S.SanitizationConfig(keys_to_sanitize=frozenset(a["base"]["keys"]), sensitive_markers=frozenset(a["base"]["markers"]),
+                                    replacement=a["base"]["replacement"])
+        probes = set(PLAIN_NAMES[:8])
+        for k in (a["keys"] or []) + (a["markers"] or []) + sorted(base.keys_to_sanitize)[:6] + sorted(base.sensitive_markers)[:3]:
+            probes |= {k, k.upper(), k.lower(), "X-" + k.title() + "-1"}
+        for n in sorted(probes):
+            keys_l = [k.lower() for k in a["keys"]] if a["keys"] is not None else None
+            marks_l = [k.lower() for k in a["markers"]] if a["markers"] is not None else None
+            if a["how"] == "extend":
+                eff_keys = set(base.keys_to_sanitize) | set(keys_l or [])
+                eff_marks = set(base.sensitive_markers) | set(marks_l or [])
+            else:
+                eff_keys = set(base.keys_to_sanitize) if keys_l is None else set(keys_l)
+                eff_marks = set(base.sensitive_markers) if marks_l is None else set(marks_l)
+            expected = n.lower() in eff_keys or any(m in n.lower() for m in eff_marks)
+            actual = real_is_sensitive(impl, n)
+            if expected != actual:
+                chk.violation(f"C15:SanitizationConfig.{a['how']}:predicate-is-not-the-configured-one",
+                              f"after {a['how']}(keys={a['keys']}, markers={a['markers']}) the name {n!r} is "
+                              f"{'not ' if expected else ''}redacted although the configured lists say otherwise",
+                              {"kind": "config", **a, "name": n, "expected_sensitive": expected})
 
 
 # ---- mechanism 5: prepare_request / as_curl_command ------------------------------------------------------------------
@@ -636,9 +671,18 @@ def mech_prepare(chk, rng, configs, variant):
         if "__err__" in m:
             raise InfraError(f"driver: {m} on {a}")
         case.operation.schema.output_config = OutputConfig(sanitize=sanitize)
+        import copy
+        before = (copy.deepcopy(case.query), copy.deepcopy(case.cookies), copy.deepcopy(dict(case.headers or {})))
         with Global(cfg):
             prepared = prepare_request(case, extra, sanitize)
+            after = (copy.deepcopy(case.query), copy.deepcopy(case.cookies), copy.deepcopy(dict(case.headers or {})))
             curl = case.as_curl_command(extra)
+        if after != before:
+            chk.feature("prepare:case-mutated")
+            chk.violation(KF_MUTATES, "rendering the reproduction command with sanitization on overwrites the test case's own query / "
+                          "cookie values with the replacement (the case is changed, not only the output)",
+                          {"kind": "prepare", "cfg": cfg_wire(cfg), "kw": a["kw"], "case_before": val_wire(before[0] or {}),
+                           "case_after": val_wire(after[0] or {}), "cookies_before": val_wire(before[1] or {}), "cookies_after": val_wire(after[1] or {})})
         names = [k for k, _ in a["kw"]["headers"]] + [k for k, _ in (a["kw"]["params"] or {"D": []})["D"]] + \
                 [k for k, _ in (a["kw"]["cookies"] or {"D": []})["D"]] + [k for k, _ in a["kw"]["url"]["query"]]
         names_ok = all(model_ok_name(k) for k in names)
@@ -1084,8 +1128,11 @@ def cli_canary(chk, rng):
         raise InfraError(f"no CLI entry point at {st}")
     runs = 0
     for with_userinfo in (False, True):
-        for sanitize in (True, False):
+        for flag in (True, False, None):  # None: --output-sanitize not given (the default must be "on")
+            sanitize = flag is not False
             for custom in (False, True):
+                if flag is None and custom:
+                    continue
                 can = Canaries(rng)
                 c = {r: can.new(r, True) for r in ("argv:--header", "argv:--auth", "generated:query", "generated:cookie", "generated:header",
                                                     "response.Set-Cookie")}
@@ -1113,8 +1160,9 @@ def cli_canary(chk, rng):
                             env["PYTHONPATH"] = d + os.pathsep + env["PYTHONPATH"]
                         cmd = [str(st), "run", f"http://{ui}127.0.0.1:{port}/openapi.json", "--header", f"X-Secret: {c['argv:--header']}",
                                "-H", f"X-Tenant: {tenant}", "--auth", f"usr:{c['argv:--auth']}", "--report", "junit,vcr,har", "--report-dir", d + "/rep",
-                               "--max-examples", "3", "--phases", "fuzzing", "--checks", "not_a_server_error", f"--output-sanitize={str(sanitize).lower()}",
-                               "--seed", "1"]
+                               "--max-examples", "3", "--phases", "fuzzing", "--checks", "not_a_server_error", "--seed", "1"]
+                        if flag is not None:
+                            cmd.append(f"--output-sanitize={str(flag).lower()}")
                         r = subprocess.run(cmd, capture_output=True, text=True, cwd=d, env=env, timeout=120)
                         if r.returncode not in (0, 1) or "found 1 unique failures" not in r.stdout:
                             raise InfraError(f"CLI run did not produce the expected failure: rc={r.returncode} {r.stdout[-800:]} {r.stderr[-800:]}")
@@ -1129,8 +1177,8 @@ def cli_canary(chk, rng):
                 b64 = base64.b64encode(f"usr:{c['argv:--auth']}".encode()).decode()
                 secrets = can.secrets() + [(b64, "argv:--auth(base64)")]
                 a = {"cmd": [x.replace(str(port), "PORT") for x in cmd[1:]], "sanitize": sanitize, "custom": custom}
-                chk.case("cli", key=[with_userinfo, sanitize, custom], nontrivial=True, sample={"cmd": a["cmd"]})
-                chk.feature(f"cli:sanitize={sanitize}:userinfo={with_userinfo}:custom={custom}")
+                chk.case("cli", key=[with_userinfo, flag, custom], nontrivial=True, sample={"cmd": a["cmd"]})
+                chk.feature(f"cli:sanitize={'default' if flag is None else flag}:userinfo={with_userinfo}:custom={custom}")
                 har_dead = sanitize and with_userinfo and (arts["har.json"].strip() == "" or "ValueError" in arts["stderr"])
                 if har_dead:
                     chk.violation(KF_HAR_CRASH, "the HAR writer thread dies on the first sanitized URL with userinfo: har.json is empty",
@@ -1162,6 +1210,29 @@ def cli_canary(chk, rng):
                     chk.violation("C15:cli:non-sensitive-header-redacted", "X-Tenant is redacted although it is not in the configured lists",
                                   {"kind": "cli", **a})
     chk.notes.append(f"cli: {runs} real `st run` subprocesses (junit, vcr, har, stdout, stderr searched for every canary)")
+
+
+# ---- defaults -----------------------------------------------------------------------------------------------------------
+
+def mech_defaults(chk):
+    """sanitization is on unless switched off: every default through which the flag travels"""
+    import dataclasses
+    import inspect
+    from schemathesis.cli.commands import run as run_command
+    from schemathesis.cli.commands.run.handlers.cassettes import CassetteWriter
+    from schemathesis.cli.commands.run.reports import ReportConfig
+    sites = {
+        "OutputConfig().sanitize": OutputConfig().sanitize is True,
+        "schema.output_config.sanitize": build_schema("http://127.0.0.1/").output_config.sanitize is True,
+        "CassetteWriter.sanitize_output": {f.name: f.default for f in dataclasses.fields(CassetteWriter)}["sanitize_output"] is True,
+        "ReportConfig(sanitize_output)": inspect.signature(ReportConfig.__init__).parameters["sanitize_output"].default is True,
+        "--output-sanitize": next(p for p in run_command.params if p.name == "output_sanitize").default in ("true", True),
+    }
+    for site, ok in sites.items():
+        chk.case("defaults", key=site, nontrivial=True, sample={"site": site, "on_by_default": ok})
+        if not ok:
+            chk.violation(f"C15:defaults:sanitization-not-on-by-default:{site}", f"sanitization is not enabled by default at {site}",
+                          {"kind": "default", "site": site})
 
 
 # ---- entry points ------------------------------------------------------------------------------------------------------
@@ -1228,6 +1299,7 @@ def run(chk):
         "whole-CLI information flow (all console lines, all report files): canary search over real `st run` subprocesses in the thorough tier",
         "names with non-ASCII case mappings (Python str.lower vs ASCII lower)",
     ]
+    mech_defaults(chk)
     mech_keys(chk, rng, configs)
     mech_config(chk, rng)
     mech_value(chk, rng, configs)
@@ -1250,6 +1322,10 @@ def replay(chk, data):
     if "cfg" in rp:
         cfg = S.SanitizationConfig(keys_to_sanitize=frozenset(rp["cfg"]["keys"]), sensitive_markers=frozenset(rp["cfg"]["markers"]),
                                    replacement=rp["cfg"]["replacement"])
+    if rp.get("default_configuration"):
+        cfg = S.SanitizationConfig()
+        rp["cfg"] = cfg_wire(cfg)
+        print("(replayed under the default configuration of the tree under test)")
     drv = chk.driver()
     if kind == "url":
         print("input:", rp["url"])
@@ -1257,7 +1333,10 @@ def replay(chk, data):
         print("model/spec:", drv.one("url", {"cfg": rp["cfg"], "u": url_wire(rp["url"])}))
     elif kind == "value":
         print("input:", rp["v"], "\nrecorded impl:", rp["out"])
-        print("model/spec:", drv.one("value", {"cfg": rp["cfg"], "v": rp["v"], "out": rp["out"]}))
+        now = val_unwire(rp["v"])
+        S.sanitize_value(now, config=cfg)
+        print("impl now:", val_wire(now))
+        print("model/spec (spec judges impl now):", drv.one("value", {"cfg": rp["cfg"], "v": rp["v"], "out": val_wire(now)}))
     elif kind == "command":
         from schemathesis.cli.commands.run.handlers import cassettes
         argv = [rp["argv0"], *[x if isinstance(x, str) else x["raw"] for x in rp["args"]]]
